@@ -155,6 +155,7 @@ Section Sigma.
     if negb good then Reject
     else if (q <=? Z.abs r1) || (q <=? Z.abs r2) then Reject
     else if (q <=? Z.abs c1) || (q <=? Z.abs c2) then Reject
+    else if negb (check_element G y1) || negb (check_element G y2) then Reject
     else match mpz_powm y1 c1 p with None => Throw | Some a1 =>
          match mpz_powm g1 r1 p with None => Throw | Some b1 =>
          let t1 := (a1 * b1) mod p in
@@ -186,7 +187,8 @@ Section Sigma.
     end.
 
   Definition mask_verify (m c1 c2 : Z) (good : bool) (c r : Z) : verdict :=
-    if negb (check_element G c1) then Reject
+    if negb (check_element G m) then Reject
+    else if negb (check_element G c1) then Reject
     else if negb (check_element G c2) then Reject
     else match invm m p with
          | None => Reject
@@ -215,7 +217,9 @@ Section Sigma.
     end.
 
   Definition remask_verify (c1 c2 d1 d2 : Z) (good : bool) (c r : Z) : verdict :=
-    if negb (check_element G d1) then Reject
+    if negb (check_element G c1) then Reject
+    else if negb (check_element G c2) then Reject
+    else if negb (check_element G d1) then Reject
     else if negb (check_element G d2) then Reject
     else match invm c1 p with
          | None => Reject
